@@ -1,6 +1,10 @@
 package props
 
 import (
+	"go/token"
+	"go/types"
+	"regexp"
+
 	"golang.org/x/tools/go/ssa"
 
 	"obsa/eng"
@@ -67,10 +71,14 @@ func runC02(c *eng.Ctx, thorough bool) {
 			"vault.(*Core).handleRequest":      "authenticated handler (C02.1)",
 			"vault.(*Core).handleLoginRequest": "login handler (C02.3)",
 		}, 2)
-		sites = c.P.FindCalls(mustStatic(c, "vault.(*Core).doRouting"), nil)
-		c.CallerTable("Core.doRouting", sites, map[string]string{
-			"vault.(*Core).doRoutingIfApproved": "only through the approval gate",
-		}, 1)
+		// the one-line forwarding helper may be inlined into the approval gate; the who-may-call table of
+		// Router.Route below then sees (and must approve) the gate as a direct caller
+		if c.P.Func("vault.(*Core).doRouting") != nil {
+			sites = c.P.FindCalls(mustStatic(c, "vault.(*Core).doRouting"), nil)
+			c.CallerTable("Core.doRouting", sites, map[string]string{
+				"vault.(*Core).doRoutingIfApproved": "only through the approval gate",
+			}, 1)
+		}
 	}
 
 	// ---------------- C02.1 CheckToken
@@ -121,15 +129,22 @@ func runC02(c *eng.Ctx, thorough bool) {
 		c.Cut(f, "return with nil error", succ, eng.G(f, `^φte\{.*\} == nil$`, false), nil)
 		lk := eng.GCallOK(f, `vault\.\(\*TokenStore\)\.Lookup$`)
 		c.Cut(f, "return with nil error", succ, eng.Or(eng.Guard{Desc: lk.Desc, Edges: lk.Edges}, eng.G(f, `^logical\.\(\*Request\)\.TokenEntry\(\) == nil$`, false)), nil)
-		c.Cut(f, "return with nil error", succ, eng.Or(
-			eng.G(f, `^φvalid\{.*\}$`, true),
-			eng.G(f, `^φte\{.*\}\.TTL == 0$`, true),
-			eng.G(f, `^0 < len\(φte\{.*\}\.BoundCIDRs\)$`, false)), nil)
+		cidrInline := len(eng.Calls(f, `SockAddr>\.Contains$`)) > 0
+		if cidrInline {
+			c.Cut(f, "return with nil error", succ, eng.Or(
+				eng.G(f, `^φvalid\{.*\}$`, true),
+				eng.G(f, `^φte\{.*\}\.TTL == 0$`, true),
+				eng.G(f, `^0 < len\(φte\{.*\}\.BoundCIDRs\)$`, false)), nil)
+		} else {
+			c02BoundCIDRHelper(c, f, succ)
+		}
 		c.Cut(f, "return with nil error", succ, eng.GCallOK(f, `policy\.\(\*Store\)\.ACL$`), nil)
 		c.Cut(f, "return with nil error", succ, eng.GCallOK(f, `vault\.\(\*Core\)\.fetchEntityAndDerivedPolicies$`), nil)
 		// valid=true only when a bound CIDR contains the remote address
-		trueEdges := eng.PhiEdgeSinks(f, "valid", func(v ssa.Value) bool { return eng.Expr(v) == "true" })
-		c.Cut(f, "valid = true", trueEdges, eng.G(f, `SockAddr>\.Contains\(\)$`, true), nil)
+		if cidrInline {
+			trueEdges := eng.PhiEdgeSinks(f, "valid", func(v ssa.Value) bool { return eng.Expr(v) == "true" })
+			c.Cut(f, "valid = true", trueEdges, eng.G(f, `SockAddr>\.Contains\(\)$`, true), nil)
+		}
 		c.Clause("R5", "C02.1")
 		for _, r := range succ {
 			ret := r.(*ssa.Return)
@@ -153,38 +168,7 @@ func runC02(c *eng.Ctx, thorough bool) {
 	}
 
 	// ---------------- C02.1 performPolicyChecks
-	if f := c.Fn("vault.(*Core).performPolicyChecks"); f != nil {
-		c.Clause("R2", "C02.1")
-		allow := instrsOf(eng.Stores(f, `\.Allowed$`))
-		c.Floor(f, "stores to AuthResults.Allowed", len(allow), 2)
-		for _, st := range allow {
-			s := st.(*ssa.Store)
-			if eng.Expr(s.Val) != "true" {
-				continue
-			}
-			// either root, or ACL allowed, or no ACL check requested
-			c.Cut(f, "ret.Allowed = true @"+eng.InstrStr(s), []ssa.Instruction{s}, eng.Or(
-				eng.G(f, `ACLResults\.IsRoot$`, true),
-				eng.G(f, `ACLResults\.Allowed$`, true),
-				eng.G(f, `^acl == nil$`, true),
-				eng.G(f, `^opts\.Unauth$`, true)), nil)
-		}
-		// with an ACL and !Unauth: Allowed=true needs IsRoot, or Allowed and (RootPrivs or !RootPrivsRequired or help)
-		asm := map[string]bool{`^acl == nil$`: false, `^opts\.Unauth$`: false}
-		c.Cut(f, "ret.Allowed = true (acl != nil, !Unauth)", allow, eng.Or(eng.G(f, `ACLResults\.IsRoot$`, true), eng.G(f, `ACLResults\.Allowed$`, true)), asm)
-		c.Cut(f, "ret.Allowed = true (acl != nil, !Unauth)", allow, eng.Or(
-			eng.G(f, `ACLResults\.IsRoot$`, true),
-			eng.G(f, `\.RootPrivs$`, true),
-			eng.G(f, `^opts\.RootPrivsRequired$`, false),
-			eng.G(f, `^req\.Operation == "help"$`, true)), asm)
-		// the ACL consulted is the one passed in, for the request passed in
-		c.Clause("R5", "C02.1")
-		for _, ao := range eng.Calls(f, `policy\.\(\*ACL\)\.AllowOperation$`) {
-			c.Prov(f, "ACL consulted", ao, ao.Common().Args[0], `^param:acl$`)
-			c.Prov(f, "request checked", ao, ao.Common().Args[2], `^param:req$`)
-		}
-		c.Floor(f, "AllowOperation call", len(eng.Calls(f, `policy\.\(\*ACL\)\.AllowOperation$`)), 1)
-	}
+	c02PolicyChecks(c)
 
 	// ---------------- C02.2 token liveness on every lookup path (shared with C04.5 and C19.5)
 	tokenLiveness(c, "C02.2")
@@ -418,6 +402,7 @@ func runC02(c *eng.Ctx, thorough bool) {
 
 	// ---------------- C02.8 a token is judged by its own policies: the per-request ACL must not write into the cached policy objects
 	aclOwnership(c, "C02.8")
+	c03gCloneOwnership(c, "C02.8")
 
 	runC02Gaps2(c)
 	runC02Gaps3(c, "C02.7")
@@ -453,7 +438,9 @@ func tokenLiveness(c *eng.Ctx, clause string) {
 		c.Floor(f, "ret = entry assignments", len(retEdges), 1)
 		all := append(append([]ssa.Instruction{}, sinks...), retEdges...)
 		c.Floor(f, "entry-returning exits", len(all), 2)
-		c.Cut(f, "exit returning a token entry", all, eng.Or(eng.G(f, `\.NumUses < 0$`, false), eng.G(f, `^tainted$`, true)), nil)
+		// the marker test is selected by what it is (a comparison of TokenEntry.NumUses with a constant that
+		// separates tokenRevocationPending from every valid use count), not by how it is spelled (props/c04follow.go)
+		c.Cut(f, "exit returning a token entry", all, eng.Or(c04MarkerExcluded(c, f), eng.G(f, `^tainted$`, true)), nil)
 		c.Cut(f, "ret = entry (expiring token)", retEdges, eng.Or(eng.G(f, `^time\.\(Time\)\.Before\(\)$`, false), eng.G(f, `^tainted$`, true)), nil)
 		c.Cut(f, "ret = entry (expiring token)", retEdges, eng.G(f, `FetchLeaseTimesByToken\(\)#0 == nil$`, false), nil)
 		c.Cut(f, "ret = entry (expiring token)", retEdges, eng.GCallOK(f, `vault\.\(\*ExpirationManager\)\.FetchLeaseTimesByToken$`), nil)
@@ -491,4 +478,169 @@ func tokenLiveness(c *eng.Ctx, clause string) {
 			eng.G(f, `^vault\.\(\*TokenStore\)\.Lookup\(\)#0 == nil$`, false)), nil)
 	}
 
+}
+
+// c02BoundCIDRHelper: the bound-CIDR test is not in fetchACLTokenEntryAndEntity
+// itself. Follow it into a static callee of the same package that carries the
+// SockAddr.Contains call: the fetch succeeds only across that helper's nil-error
+// edge, and the helper returns nil only for an exempt token (TTL == 0, no bound
+// CIDRs) or across a Contains == true edge. Anything else cannot be evaluated.
+func c02BoundCIDRHelper(c *eng.Ctx, f *ssa.Function, succ []ssa.Instruction) {
+	c.Clause("R2", "C02.1")
+	var helpers []*ssa.Function
+	seen := map[*ssa.Function]bool{}
+	for _, cl := range eng.Calls(f, `.`) {
+		h := cl.Common().StaticCallee()
+		if h == nil || seen[h] || h.Pkg != f.Pkg || len(h.Blocks) == 0 {
+			continue
+		}
+		seen[h] = true
+		if len(eng.Calls(h, `SockAddr>\.Contains$`)) > 0 {
+			helpers = append(helpers, h)
+		}
+	}
+	site := "sink{return with nil error} guard{bound-CIDR check}"
+	if len(helpers) == 0 {
+		c.Undecided(f, site, f.Pos(), "no bound-CIDR test (SockAddr.Contains) in this function or in a function of this package it calls directly (moved? the rule cannot be evaluated)")
+		return
+	}
+	for _, h := range helpers {
+		res := h.Signature.Results()
+		if res.Len() == 0 || res.At(res.Len()-1).Type().String() != "error" {
+			c.Undecided(f, site, h.Pos(), "the bound-CIDR test moved into "+eng.FuncName(h)+", whose verdict is not an error result; the rule cannot be evaluated")
+			continue
+		}
+		pat := "^" + regexp.QuoteMeta(eng.FuncName(h)) + "$"
+		c.Cut(f, "return with nil error", succ, eng.GCallOK(f, pat), nil)
+		hs := eng.SuccessReturns(h, res.Len()-1)
+		if c.Floor(h, "nil-error returns of the bound-CIDR helper", len(hs), 1) {
+			c.Cut(h, "bound-CIDR check passed (nil error)", hs, eng.Or(
+				eng.G(h, `SockAddr>\.Contains\(\)$`, true),
+				eng.G(h, `\.TTL == 0$`, true),
+				eng.G(h, `^0 < len\(.*\.BoundCIDRs\)$`, false),
+				eng.G(h, `len\(.*\.BoundCIDRs\)\)? == 0$`, true)), nil)
+		}
+	}
+}
+
+// c02FieldGuard: the edges on which a boolean field (given by identity, however
+// the struct is reached: through the result cell, a local alias, the call
+// result) has the value want.
+func c02FieldGuard(c *eng.Ctx, f *ssa.Function, desc string, want bool, fields ...string) eng.Guard {
+	set := map[*types.Var]bool{}
+	for _, n := range fields {
+		fv := c.P.Field(n)
+		if fv == nil {
+			c.Unresolved(n)
+			continue
+		}
+		set[fv] = true
+	}
+	g := eng.Guard{Desc: "[" + desc + "]=" + map[bool]string{true: "true", false: "false"}[want]}
+	for _, in := range eng.Instrs(f, func(in ssa.Instruction) bool {
+		switch x := in.(type) {
+		case *ssa.UnOp:
+			if x.Op == token.MUL {
+				if fv := eng.FieldVar(x.X); fv != nil && set[fv] {
+					return true
+				}
+			}
+		case *ssa.Field:
+			return set[eng.FieldVar(x)]
+		}
+		return false
+	}) {
+		g.Edges = append(g.Edges, eng.BoolEdges(in.(ssa.Value), want)...)
+	}
+	return g
+}
+
+// c02PolicyChecks (C02.1): AuthResults.Allowed becomes true only on the root /
+// ACL-allowed(+sudo) arms. Conditions are selected by the field they read, the
+// verdict by the field it is stored into; a verdict stored as a computed boolean
+// (a && b) is followed through its phi: the incoming non-false value counts as
+// "may be true" on the edge it arrives by.
+func c02PolicyChecks(c *eng.Ctx) {
+	f := c.Fn("vault.(*Core).performPolicyChecks")
+	if f == nil {
+		return
+	}
+	c.Clause("R2", "C02.1")
+	allowedField := c.P.Field("policy.AuthResults.Allowed")
+	if allowedField == nil {
+		c.Unresolved("policy.AuthResults.Allowed")
+		return
+	}
+	var stores []*ssa.Store
+	for _, st := range eng.Stores(f, `\.Allowed$`) {
+		if eng.FieldVar(st.Addr) == allowedField {
+			stores = append(stores, st)
+		}
+	}
+	c.Floor(f, "stores to AuthResults.Allowed", len(stores), 2)
+	isRoot := c02FieldGuard(c, f, "ACLResults.IsRoot", true, "policy.ACLResults.IsRoot")
+	aclAllowed := c02FieldGuard(c, f, "ACLResults.Allowed", true, "policy.ACLResults.Allowed")
+	rootPrivs := c02FieldGuard(c, f, "RootPrivs", true, "policy.ACLResults.RootPrivs", "policy.AuthResults.RootPrivs")
+	// sinks: program points at which Allowed may become true
+	type sink struct {
+		in       ssa.Instruction
+		what     string
+		computed bool // the value arriving here is not the constant true
+	}
+	var sinks []sink
+	for _, st := range stores {
+		switch v := st.Val.(type) {
+		case *ssa.Const:
+			if eng.Expr(v) == "true" {
+				sinks = append(sinks, sink{st, "ret.Allowed = true @" + eng.InstrStr(st), false})
+			}
+		case *ssa.Phi:
+			for i, e := range v.Edges {
+				if cst, ok := e.(*ssa.Const); ok && eng.Expr(cst) == "false" {
+					continue
+				}
+				_, isConst := e.(*ssa.Const)
+				pb := v.Block().Preds[i]
+				sinks = append(sinks, sink{pb.Instrs[len(pb.Instrs)-1], "ret.Allowed = " + eng.Expr(e) + " (arm of a computed verdict)", !isConst})
+			}
+		default:
+			sinks = append(sinks, sink{st, "ret.Allowed = " + eng.Expr(v), true})
+		}
+	}
+	var all []ssa.Instruction
+	computed := false
+	for _, s := range sinks {
+		all = append(all, s.in)
+		computed = computed || s.computed
+		// either root, or ACL allowed, or no ACL check requested
+		c.Cut(f, s.what, []ssa.Instruction{s.in}, eng.Or(isRoot, aclAllowed,
+			eng.G(f, `^acl == nil$`, true),
+			eng.G(f, `^opts\.Unauth$`, true)), nil)
+	}
+	if !c.Floor(f, "points at which Allowed may become true", len(all), 2) {
+		return
+	}
+	// with an ACL and !Unauth: Allowed=true needs IsRoot, or Allowed and (RootPrivs or !RootPrivsRequired or help)
+	asm := map[string]bool{`^acl == nil$`: false, `^opts\.Unauth$`: false}
+	c.Cut(f, "ret.Allowed = true (acl != nil, !Unauth)", all, eng.Or(isRoot, aclAllowed), asm)
+	sudo := eng.Or(isRoot, rootPrivs,
+		eng.G(f, `^opts\.RootPrivsRequired$`, false),
+		eng.G(f, `^req\.Operation == "help"$`, true))
+	if computed {
+		// the sudo part of the verdict is a boolean VALUE (x && !missing): path rules do not evaluate data
+		if h := eng.Reach(eng.Query{Fn: f, Blocked: sudo.Edges, Target: eng.IsTarget(all), Assume: asm}); h != nil {
+			c.Undecided(f, "sink{ret.Allowed = true (acl != nil, !Unauth)} guard{"+sudo.Desc+"}", h.Instr.Pos(), "the verdict is stored as a computed boolean; whether it can be true without sudo on a root-protected path depends on the value of that expression, which the path rules do not evaluate (review by hand)")
+		} else {
+			c.OK(f, "sink{ret.Allowed = true (acl != nil, !Unauth)} guard{"+sudo.Desc+"}", all[0].Pos(), "every point at which Allowed may become true lies behind the sudo condition")
+		}
+	} else {
+		c.Cut(f, "ret.Allowed = true (acl != nil, !Unauth)", all, sudo, asm)
+	}
+	// the ACL consulted is the one passed in, for the request passed in
+	c.Clause("R5", "C02.1")
+	for _, ao := range eng.Calls(f, `policy\.\(\*ACL\)\.AllowOperation$`) {
+		c.Prov(f, "ACL consulted", ao, ao.Common().Args[0], `^param:acl$`)
+		c.Prov(f, "request checked", ao, ao.Common().Args[2], `^param:req$`)
+	}
+	c.Floor(f, "AllowOperation call", len(eng.Calls(f, `policy\.\(\*ACL\)\.AllowOperation$`)), 1)
 }
